@@ -307,7 +307,7 @@ func (p *parser) parseUnary() *Expr {
 		x := p.parseUnary()
 		return &Expr{Op: "un", Name: t.text, Args: []*Expr{x}}
 	}
-	if t.kind == "id" && (t.text == "forall" || t.text == "exists") {
+	if t.kind == "id" && (t.text == "forall" || t.text == "exists") && p.toks[p.pos+1].kind == "id" {
 		p.next()
 		v := p.next()
 		if v.kind != "id" {
